@@ -31,4 +31,15 @@ CHECKS["C06"] = {
     "note": "'consistent + symmetric => order 2 / energy error O(eps^2)' is a cited theorem (A9), not proved; flows are contract stubs (exactness is C07); "
             "number of free coefficients bounded (values unbounded); reals for floats.",
 }
+CHECKS["C02"] = {
+    "engine": "pyvc",
+    "technique": "contract-based deductive verification: frame/postconditions and exceptional postconditions on the real integrator sub-steps (abstract vector algebra + z3), callee contracts for solvers and flows",
+    "design_ref": "DESIGN.md section 7 C02",
+    "text": "step() of every integrator class is proved to leave its input state untouched and to let only IntegratorErrors escape; explicit schemes have palindromic traces of "
+            "group-action flows (with the z3-checked telescoping lemma); for every implicit sub-step the fixed-point map handed to the solver is proved to be the documented one, and for "
+            "every adjoint sub-step the explicit update is proved to be its algebraic adjoint and every normal return is proved to have passed the reversibility check (on a copy, with "
+            "negated time, against the initial value); the constrained inner loop is cut by an invariant for any n_inner_step.",
+    "note": "component flows are contract stubs assumed to be group actions (C07); uniqueness of implicit solutions (A8); 'up to solver tolerance' not quantified; vectors are abstract "
+            "linear combinations (equalities proved coefficient-wise).",
+}
 NOT_APPLICABLE = {}
